@@ -24,7 +24,7 @@ class SimAbort(BaseException):
 
 
 class SimThread(object):
-  __slots__ = ('tid', 'name', 'target', 'gate', 'state', 'blocked_on', 'npoints',
+  __slots__ = ('tid', 'name', 'target', 'gate', 'state', 'blocked_on', 'npoints', 'hot_events', 'nhot',
                'exc', 'result', 'real', 'events', 'atomic', 'held', 'data')
 
   def __init__(self, tid, name, target):
@@ -40,6 +40,8 @@ class SimThread(object):
     self.result = None
     self.real = None
     self.events = {}      # k-th point of this thread -> [callable(sim, thread)]
+    self.hot_events = {}  # k-th *hot* point of this thread -> [callable]
+    self.nhot = 0
     self.atomic = 0
     self.held = []        # simulated locks currently held (for probes)
     self.data = {}        # workload scratch
@@ -219,6 +221,10 @@ class Sim(object):
     """Schedule environment event `fn(sim, thread)` at thread tid's k-th point."""
     self.threads[tid].events.setdefault(k, []).append(fn)
 
+  def at_hot_point(self, tid, k, fn):
+    """Same, counted in hot points only (cache / context / lock sites)."""
+    self.threads[tid].hot_events.setdefault(k, []).append(fn)
+
   def current_thread(self):
     return self._by_ident.get(_thread.get_ident())
 
@@ -340,6 +346,12 @@ class Sim(object):
     self._ev(me.tid, kind, a, b)
     self.segments[-1][1] += 1
     evs = me.events.get(me.npoints)
+    if hot:
+      me.nhot += 1
+      if me.hot_events:
+        hv = me.hot_events.get(me.nhot)
+        if hv:
+          evs = (evs or []) + hv
     if evs:
       self.in_handler = True
       try:
@@ -489,7 +501,10 @@ class Tracer(object):
         'origin_info', 'parser', 'pretty_printer', 'naming', 'gast_util')] +
       ['malt/core/unsupported_features_checker.py'])
   # AST visitors that live in otherwise traced files
-  EXCLUDE_QUAL = {'malt/core/converter.py': ('Base.',)}
+  # (+ a loop over sys.modules, whose length depends on how many generated
+  # modules the process has loaded so far - not on the run)
+  EXCLUDE_QUAL = {'malt/core/converter.py': ('Base.',),
+                  'malt/pyct/inspect_utils.py': ('_fix_linecache_record',)}
   HOT_FILES = ('malt/pyct/cache.py', 'malt/core/ag_ctx.py',
                'malt/operators/function_wrappers.py')
   HOT_FUNCS = ('transform_function', '_cached_factory', 'instantiate',
